@@ -78,6 +78,7 @@ def run(ctx):
     ctx.run_rule('C10.2c', 'T5', 'width computation counts sign bits', r_signed_bit_count, prog)
     ctx.run_rule('C10.2d', 'T6', 'range constants', codec.r_range_constants, prog)
     ctx.run_rule('C10.3a', 'T4', 'size prefix symmetry of strings and collections', codec.r_size_prefix, prog)
+    ctx.run_rule('C10.1b', 'T1', 'a decoded string is the encoded string (nothing trimmed, stripped or replaced)', codec.r_string_decoded_verbatim, prog)
     ctx.run_rule('C10.5', 'T7', 'the codec refuses a value on its own only in the recorded places (everything else is an error of the buffer underneath, passed on)', codec.r_own_error_sites, prog)
     ctx.run_rule('C10.3c', 'T10', 'a collection decoder reads exactly the announced number of elements (a truncated sequence fails, it is not shortened)', codec.r_element_count_is_announced, prog)
     ctx.run_rule('C10.3b', 'T1', 'collection decoders have only propagated error exits', r_collection_decoders_only_propagate, prog)
